@@ -11,6 +11,7 @@
 From Coq Require Import NArith ZArith List Bool.
 From ST Require Import Base.Outcome Base.Units Codec.Spec Codec.Model.
 From ST Require Codec.ProofsC15 Codec.ProofsDecHex Codec.ProofsDecB64 Codec.ProofsExamples.
+From ST Require Codec.LeafBridge Gen.Leaf.
 Import ListNotations.
 Local Open Scope N_scope.
 
@@ -175,3 +176,13 @@ Proof. exact ProofsExamples.model_b64_buf_exact. Qed.
 Example rejected_late_keeps_within_bounds :
   b64_decode_buf [90; 109; 57; 118; 89; 33; 61; 61] true 4 = Ok ((-1)%Z, [102; 111; 111]).
 Proof. exact ProofsExamples.reject_late. Qed.
+
+(* ---- tie by translation: the leaf functions below are translated from the clang AST of the CURRENT headers into
+   Gen/Leaf.v on every run (tools/leaf_translate.py: C++ integer semantics written out over Z); the hand-written
+   model functions used by every theorem above compute the same values, so an edit to one of these functions in the
+   headers breaks this obligation whatever the test generators do ---- *)
+Theorem decode_size_matches_source : forall s,
+  (Z.of_nat (length s) < 2 ^ 62)%Z -> Forall (fun b => b < 256) s ->
+  b64_decode_size s = Ok (ST.Gen.Leaf.src_b64_decode_size (Z.of_nat (length s)) (ST.Codec.LeafBridge.data_of s)).
+Proof. exact ST.Codec.LeafBridge.b64_decode_size_matches_source. Qed.
+Print Assumptions decode_size_matches_source.
